@@ -9,7 +9,8 @@
            [interp] (Section variable in the theorems; [interp_real] is the executable instance:
            CodePage, Date1904, BOF, XF, 0x013D and the catch-all are modelled, the arms that parse
            strings / formulas — FORMAT, BoundSheet8, Lbl, ExternSheet, SST — answer
-           [Err E_UNMODELLED]).  XlsError::Password is produced nowhere else in src/xls.rs, so what
+           [Err E_UNMODELLED]; since the hardening of /repo the short-record cases of CodePage,
+           Date1904 and BOF are XlsError::Len, no longer panics).  XlsError::Password is produced nowhere else in src/xls.rs, so what
            follows the loop cannot change a non-Password result into Password.
    ods : Ods::new (src/ods.rs): the mimetype gate and check_for_password_protected over the
            manifest at the level of quick-xml events (since fix 73af2a4 elements are matched by
@@ -145,12 +146,12 @@ Definition interp_real (r : frec) : outcome unit :=
   if t =? 66 then                                  (* 0x0042 CodePage (force_codepage is None) *)
     match f_data r with
     | a :: b :: _ => if existsb (N.eqb (u16 a b)) CODE_PAGES then Ok tt else Err E_OTHER
-    | _ => Panic                                   (* read_u16 on a short slice *)
+    | _ => Err E_OTHER                             (* data.len() < 2: XlsError::Len (hardening) *)
     end
-  else if t =? 34 then                             (* 0x0022 Date1904 *)
-    match f_data r with _ :: _ :: _ => Ok tt | _ => Panic end
-  else if t =? 2057 then                           (* 0x0809 BOF: parse_bof, &r.data[..2] *)
-    match f_data r with _ :: _ :: _ => Ok tt | _ => Panic end
+  else if t =? 34 then                             (* 0x0022 Date1904: Len under 2 bytes *)
+    match f_data r with _ :: _ :: _ => Ok tt | _ => Err E_OTHER end
+  else if t =? 2057 then                           (* 0x0809 BOF: parse_bof, Len under 2 bytes *)
+    match f_data r with _ :: _ :: _ => Ok tt | _ => Err E_OTHER end
   else if t =? 224 then                            (* 0x00E0 XF: parse_xf *)
     match f_data r with _ :: _ :: _ :: _ :: _ => Ok tt | _ => Err E_OTHER end
   else if unmodelled_typ t then Err E_UNMODELLED
